@@ -5,7 +5,6 @@ CONSTANTS
   MaxDepth = 3
   PosVals <- PosSome
   Thens = {"none", "assign"}
-  UnsetAsCoded = FALSE
   MaxH = 100
 VIEW view
 INVARIANT TypeOK
